@@ -15,6 +15,7 @@ import (
 	"os/signal"
 	"path/filepath"
 	"runtime"
+	"strconv"
 	"sync"
 	"sync/atomic"
 	"syscall"
@@ -114,23 +115,25 @@ type drv struct {
 	slow   int    // margin multiplier for time budgets
 	tickUs int
 
-	ioc    *sonic.IO
-	objs   []*object
-	timers []*sonic.Timer
-	tfires []int
-	tsn    int          // number of Schedule* calls made in this scenario
-	freed  int          // descriptor number released by the last Close of an object (0: none)
-	lateLn net.Listener // scenarios with objects opened later: the listener their connections dial
-	tdue   []bool       // once-schedule outstanding (driver's ledger)
-	ops    map[int]*opinfo
-	posted map[int]bool
-	depth  int
-	script map[string][]Ev
-	ran    map[string]bool
-	t0     time.Time
-	base   int
-	sink   int // UDP socket receiving datagrams written by pkt objects
-	sinkSA syscall.Sockaddr
+	ioc        *sonic.IO
+	objs       []*object
+	timers     []*sonic.Timer
+	tfires     []int
+	tsn        int          // number of Schedule* calls made in this scenario
+	lateTimers bool         // the scenario creates timers itself (TNew)
+	plugs      []int        // descriptors occupying the free numbers below the scenario's own (plugHoles)
+	freed      int          // descriptor number released by the last Close of an object (0: none)
+	lateLn     net.Listener // scenarios with objects opened later: the listener their connections dial
+	tdue       []bool       // once-schedule outstanding (driver's ledger)
+	ops        map[int]*opinfo
+	posted     map[int]bool
+	depth      int
+	script     map[string][]Ev
+	ran        map[string]bool
+	t0         time.Time
+	base       int
+	sink       int // UDP socket receiving datagrams written by pkt objects
+	sinkSA     syscall.Sockaddr
 
 	nontrivial bool
 	bufs       [][]byte
@@ -369,7 +372,7 @@ func (d *drv) mk(kind string, idx int) (*object, error) {
 func (d *drv) sample() {
 	e := Ev{Ev: "Sample", Pending: int(d.ioc.Pending()), Posted: d.ioc.Posted(), Dispatched: d.ioc.Dispatched - d.base}
 	for _, t := range d.timers {
-		if t.Scheduled() {
+		if t != nil && t.Scheduled() {
 			e.Sched = append(e.Sched, 1)
 		} else {
 			e.Sched = append(e.Sched, 0)
@@ -503,8 +506,11 @@ func (d *drv) exec(c Ev) {
 					cb(err, n, tok)
 				})
 			}
-		case "writeto":
+		case "writeto", "writetobig":
 			b := d.buf(1)
+			if c.Api == "writetobig" {
+				b = make([]byte, 70000) // larger than any UDP datagram: the send fails at once (EMSGSIZE)
+			}
 			b[0] = 7
 			if ob.mcp != nil {
 				ob.mcp.AsyncWrite(b, netip.AddrPortFrom(netip.AddrFrom4([4]byte{127, 0, 0, 1}), uint16(d.sinkPort())),
@@ -597,9 +603,24 @@ func (d *drv) exec(c Ev) {
 		d.freed = 0
 		d.objs[c.O-1] = nb
 		d.emit(Ev{Ev: "Open", O: c.O, N: nb.fd})
+	case "TNew":
+		if d.timers[c.T-1] != nil {
+			d.skipped++
+			return
+		}
+		tm, err := sonic.NewTimer(d.ioc)
+		if err != nil {
+			panic(fmt.Errorf("new timer: %w", err))
+		}
+		d.timers[c.T-1] = tm
+		d.emit(Ev{Ev: "TNew", T: c.T})
 	case "TSchedB":
 		t := c.T
 		tm := d.timers[t-1]
+		if tm == nil {
+			d.skipped++
+			return
+		}
 		dur := time.Duration(c.D) * time.Microsecond
 		d.tsn++
 		sn := d.tsn // identity of this call's closure
@@ -628,6 +649,10 @@ func (d *drv) exec(c Ev) {
 		cls, note := errClass(err)
 		d.emit(Ev{Ev: "TSchedE", T: t, Err: cls, Note: note})
 	case "TCancelE":
+		if d.timers[c.T-1] == nil {
+			d.skipped++
+			return
+		}
 		err := d.timers[c.T-1].Cancel()
 		if err == nil {
 			d.tdue[c.T-1] = false
@@ -635,13 +660,20 @@ func (d *drv) exec(c Ev) {
 		cls, note := errClass(err)
 		d.emit(Ev{Ev: "TCancelE", T: c.T, Err: cls, Note: note})
 	case "TCloseE":
+		if d.timers[c.T-1] == nil {
+			d.skipped++
+			return
+		}
 		err := d.timers[c.T-1].Close()
 		if err == nil {
 			d.tdue[c.T-1] = false
 			// the program goes on creating timers: the kernel may hand the closed
-			// timer's descriptor number to the next one
-			if sp, e2 := sonic.NewTimer(d.ioc); e2 == nil {
-				d.spare = append(d.spare, sp)
+			// timer's descriptor number to the next one (in scenarios that create timers themselves
+			// the TNew command does that)
+			if !d.lateTimers {
+				if sp, e2 := sonic.NewTimer(d.ioc); e2 == nil {
+					d.spare = append(d.spare, sp)
+				}
 			}
 		}
 		cls, note := errClass(err)
@@ -873,7 +905,7 @@ func parse(h []Ev) (map[string][]Ev, Ev) {
 			if len(stack) > 1 {
 				stack = stack[:len(stack)-1]
 			}
-		case "Call", "CancelB", "CloseB", "PostE", "TSchedB", "TCancelE", "TCloseE", "Env", "PollB", "WaitSig", "Open":
+		case "Call", "CancelB", "CloseB", "PostE", "TSchedB", "TCancelE", "TCloseE", "Env", "PollB", "WaitSig", "Open", "TNew":
 			if e.Note != "drain" { // the model's drain phase is not replayed: the driver has its own
 				script[cur] = append(script[cur], e)
 			}
@@ -933,8 +965,14 @@ func (d *drv) drain() {
 
 func (d *drv) cleanup() {
 	for _, t := range d.timers {
-		_ = t.Close()
+		if t != nil {
+			_ = t.Close()
+		}
 	}
+	for _, fd := range d.plugs {
+		syscall.Close(fd)
+	}
+	d.plugs = nil
 	for _, t := range d.spare {
 		_ = t.Close()
 	}
@@ -972,6 +1010,31 @@ func (d *drv) cleanup() {
 	}
 	if d.ioc != nil {
 		_ = d.ioc.Close()
+	}
+}
+
+// plugHoles occupies every free descriptor number below the highest one in use. A scenario that creates
+// objects or timers after closing others then sees what a program holding no other descriptors sees: the new
+// descriptor gets the number that was just released.
+func (d *drv) plugHoles() {
+	max := 0
+	if ents, err := os.ReadDir("/proc/self/fd"); err == nil {
+		for _, e := range ents {
+			if n, err := strconv.Atoi(e.Name()); err == nil && n > max {
+				max = n
+			}
+		}
+	}
+	for k := 0; k < 4096; k++ {
+		fd, err := syscall.Open("/dev/null", syscall.O_RDONLY|syscall.O_CLOEXEC, 0)
+		if err != nil {
+			return
+		}
+		if fd > max {
+			syscall.Close(fd)
+			return
+		}
+		d.plugs = append(d.plugs, fd)
 	}
 }
 
@@ -1015,7 +1078,15 @@ func (d *drv) scenario(h []Ev) (err error) {
 		d.objs = append(d.objs, ob)
 	}
 	d.lateLn = lateLn // objects made above used listeners of their own; Open dials this one
+	d.lateTimers = reset.H != 0
 	for k := 0; k < reset.N; k++ {
+		if reset.H&(1<<uint(k)) != 0 {
+			// bit k of Reset.h: timer k+1 does not exist yet, a TNew command creates it
+			d.timers = append(d.timers, nil)
+			d.tfires = append(d.tfires, 0)
+			d.tdue = append(d.tdue, false)
+			continue
+		}
 		t, err := sonic.NewTimer(d.ioc)
 		if err != nil {
 			return err
@@ -1023,6 +1094,9 @@ func (d *drv) scenario(h []Ev) (err error) {
 		d.timers = append(d.timers, t)
 		d.tfires = append(d.tfires, 0)
 		d.tdue = append(d.tdue, false)
+	}
+	if reset.D != 0 || reset.H != 0 {
+		d.plugHoles()
 	}
 	lim := reset.Lim
 	if lim <= 0 || lim > sonic.MaxCallbackDispatch {
